@@ -236,6 +236,7 @@ type tcase struct {
 	Follow  []followGroup      `json:"follow"`
 	DFollow int64              `json:"dfollow"`
 	Focus   []int              `json:"focus"`
+	Only    string             `json:"only"` // "" | plain | torn : which images of the focus range
 	NoImgs  bool               `json:"noimgs"`
 }
 
@@ -702,13 +703,14 @@ func runCase(c tcase) (res result) {
 		res.Bounds = append(res.Bounds, len(r.log))
 		r.mu.Unlock()
 	}
+	// the script ends here: calls issued by the clean-up below are not part of the case
+	r.mu.Lock()
+	log := append([]fsop(nil), r.log...)
+	r.mu.Unlock()
 	for _, w := range writers {
 		_ = w.Close()
 	}
 	_ = db.Close()
-	r.mu.Lock()
-	log := r.log
-	r.mu.Unlock()
 	for i := range log {
 		if log[i].raw != nil {
 			log[i].D = hex.EncodeToString(log[i].raw)
@@ -741,8 +743,10 @@ func runCase(c tcase) (res result) {
 		res.Imgs = append(res.Imgs, img{K: k, T: t, O: idx})
 	}
 	for k := lo; k <= hi; k++ {
-		one(k, 0)
-		if k < len(log) && k < hi {
+		if c.Only != "torn" {
+			one(k, 0)
+		}
+		if k < len(log) && (k < hi || c.Only == "torn") && c.Only != "plain" {
 			for _, t := range tornPoints(log[k], c.Torn) {
 				one(k, t)
 			}
